@@ -8,14 +8,20 @@
    Fourier integral of the indicator (C12_triangle_is_fourier_integral); with the fan decomposition this covers
    polygons of any size up to the same modelled step as C04 (a simple polygon's integral = signed sum over its fan).
    NOT proved: the degenerate directions (q perpendicular to an edge or to a chord: limits of the generic case), planes other
-   than xy (rigid-motion covariance), and the polyhedron analogue; those are decided by correspondence with
-   direct quadrature of the defining integral.
+   than xy for the POLYGON method on its own; those are decided by correspondence with direct quadrature of the defining integral.
+   POLYHEDRA (C12_polyhedron_is_sum_of_cone_fourier_integrals): for every closed, oriented, triangulated surface with unit face normals
+   (any plane, any size) the face sum of Polyhedron.compute_form_factor_amplitude equals the sum of the Fourier integrals of the signed
+   cone tetrahedra (o, a, b, c), for every apex o and every q generic for the cones; polygonal faces are the sums of their fan
+   triangles.  That the signed cones tile the solid is the modelled step shared with C01/C02.
+   The hand-written definitions polygon_ff_code / polyhedron_ff_code are run, float-extracted, against the implementation on every
+   run (correspondence to 1e-9).
    SPHERE: the two value expressions of Sphere.compute_form_factor_amplitude are regenerated from the source (Gen/Scalars.v,
    sphere_ff_amp / sphere_ff_zero) and proved equal to the Fourier integral of the centred ball in spherical coordinates
    (C12_sphere_is_fourier_integral); the phase factor exp(-i q.c) and the density are the last statement of the method, matched
    textually by the translator. *)
 From Coq Require Import Reals List Lra.
-Require Import Cox.Num.Ops Cox.Geo.Vec Cox.Model.FormFactor Cox.Thm.FormFactorThm Cox.Thm.FormFactorIntegral Cox.Thm.TriangleFF Cox.Thm.PolygonFF Cox.Gen.Scalars Cox.Thm.SphereFF.
+Require Import Cox.Num.Ops Cox.Geo.Vec Cox.Model.FormFactor Cox.Thm.FormFactorThm Cox.Thm.FormFactorIntegral Cox.Thm.TriangleFF Cox.Thm.PolygonFF Cox.Gen.Scalars Cox.Thm.SphereFF
+  Cox.Model.Mesh Cox.Model.Polygon Cox.Thm.MeshThm Cox.Thm.TetraInt Cox.Thm.FaceFF Cox.Thm.PolyhedronFF.
 Local Open Scope R_scope.
 
 (* F(-q) is the complex conjugate of F(q) *)
@@ -133,3 +139,56 @@ Proof.
   split; [exact H1 | split; [exact H2 | exact (sphere_ff_zero_is_volume_integral r cx cy cz)]].
 Qed.
 Print Assumptions C12_sphere_is_fourier_integral.
+
+
+(* POLYHEDRA.  A facet is (unit normal n, s, triangle (a,b,c)) with (b-a) x (c-a) = s n, s <> 0.  For every closed chain of facets,
+   every apex o and every wave vector q generic for the cones (q.(a-o), q.(b-o), q.(c-o) non-zero and pairwise different), the face sum
+   of the code equals the sum over the facets of
+       det(a-o, b-o, c-o) * int_0^1 int_0^(1-u) int_0^(1-u-v) exp(-i q.(o + u (a-o) + v (b-o) + w (c-o))) dw dv du . *)
+Theorem C12_cone_fourier_is :
+  forall q o t,
+    cone_fourier q o t
+    = let A := vdot Rops q o in let al := cone_al q o t in let be := cone_be q o t in let ga := cone_ga q o t in
+      cscale (cone_det o t)
+        (@Coquelicot.RInt.RInt Coquelicot.Hierarchy.R_CompleteNormedModule (fun u =>
+           @Coquelicot.RInt.RInt Coquelicot.Hierarchy.R_CompleteNormedModule (fun v =>
+             @Coquelicot.RInt.RInt Coquelicot.Hierarchy.R_CompleteNormedModule (fun w => cos (A + u * al + v * be + w * ga)) 0 (1 - u - v)) 0 (1 - u)) 0 1,
+         - @Coquelicot.RInt.RInt Coquelicot.Hierarchy.R_CompleteNormedModule (fun u =>
+           @Coquelicot.RInt.RInt Coquelicot.Hierarchy.R_CompleteNormedModule (fun v =>
+             @Coquelicot.RInt.RInt Coquelicot.Hierarchy.R_CompleteNormedModule (fun w => sin (A + u * al + v * be + w * ga)) 0 (1 - u - v)) 0 (1 - u)) 0 1).
+Proof. reflexivity. Qed.
+
+Theorem C12_polyhedron_is_sum_of_cone_fourier_integrals :
+  forall (q o : vec3 R) (Fs : list facet),
+    (forall f, In f Fs -> facet_ok f) -> closed (map ftri Fs) -> (forall f, In f Fs -> generic_cone q o (ftri f)) ->
+    polyhedron_ff q (map facet_face Fs) = csum (map (cone_fourier q o) (map ftri Fs)).
+Proof. exact polyhedron_ff_is_fourier. Qed.
+Print Assumptions C12_polyhedron_is_sum_of_cone_fourier_integrals.
+
+(* one tetrahedron: Gauss' theorem for the plane wave, four face terms = det * closed form of the triple integral *)
+Theorem C12_tetrahedron_gauss :
+  forall q o a b c,
+    let al := vdot Rops q (vsub Rops a o) in let be := vdot Rops q (vsub Rops b o) in let ga := vdot Rops q (vsub Rops c o) in
+    generic3 al be ga ->
+    cadd (tri_sf q a b c) (cadd (tri_sf q o c b) (cadd (tri_sf q o a c) (tri_sf q o b a)))
+    = cscale (det3 (vsub Rops a o) (vsub Rops b o) (vsub Rops c o)) (T_cos (vdot Rops q o) al be ga, - T_sin (vdot Rops q o) al be ga).
+Proof. exact tet_gauss. Qed.
+Print Assumptions C12_tetrahedron_gauss.
+
+(* polygonal faces of any size: the face term is the sum of the face terms of the fan triangles; and the orientation factor of the
+   polygon method is +1 for faces listed counter-clockwise about their normal (as sort_faces leaves them) *)
+Theorem C12_face_is_sum_of_fan_triangles :
+  forall n q a b l, face_ff n q (a :: b :: l) = face_fan n q a b l.
+Proof. exact face_ff_is_fan. Qed.
+Print Assumptions C12_face_is_sum_of_fan_triangles.
+
+Theorem C12_code_face_term_counterclockwise :
+  forall n q V, 0 < sa_coef Rops n V -> face_ff_code n q V = face_ff n q V.
+Proof. exact face_ff_code_positive. Qed.
+Print Assumptions C12_code_face_term_counterclockwise.
+
+(* the hypotheses are satisfiable: the tetrahedron (0,0,0), (2,0,0), (0,1,0), (0,0,1) with its outward rational unit normals,
+   q = (1, 3, 5), apex (1/3, 1/5, 1/7) *)
+Example C12_polyhedron_hypotheses_hold :
+  (forall f, In f ex_facets -> facet_ok f) /\ closed (map ftri ex_facets) /\ (forall f, In f ex_facets -> generic_cone ex_q ex_o (ftri f)).
+Proof. exact polyhedron_ff_hypotheses_hold. Qed.
